@@ -7,18 +7,21 @@
 // It logs every event with its observed effect; the Coq judge replays the log on Model/Registry.v.
 //
 // request:  {"seed":n, "callers":k, "steps":m, "timeouts_ms":[..per caller, 0 = 10 s], "dup":bool,
-//            "profile":"mixed"|"wedge"|"timeouts"|"senderr"}
+//
+//	"profile":"mixed"|"wedge"|"timeouts"|"senderr"}
+//
 // response: {"opids":[..decimal strings..], "events":[[kind, a, b, c], ...], "hang":str, "reglen":n, ...}
 //
 // event kinds (a,b,c meaning):
-//   1 ERegister   a=caller
-//   2 ERelease    a=caller                 (caller leaves the yield after Register, enters select)
-//   3 ESendOk     a=caller
-//   4 ESendFail   a=caller
-//   5 EArrive     a=opid index (-1 unknown id) b=tag c=1 found / 0 miss
-//   6 EDeliver    a=1 delivered / 0 dropped(chan full)   (-1: reader did not return within 1 s = blocked)
-//   7 ETook       a=caller b=1 result / 2 timeout / 3 send error
-//   8 EUnregister a=caller b=outcome (1 ok, 2 timed out, 3 send error, 4 other) c=tag of returned frame (or -1)
+//
+//	1 ERegister   a=caller
+//	2 ERelease    a=caller                 (caller leaves the yield after Register, enters select)
+//	3 ESendOk     a=caller
+//	4 ESendFail   a=caller
+//	5 EArrive     a=opid index (-1 unknown id) b=tag c=1 found / 0 miss
+//	6 EDeliver    a=1 delivered / 0 dropped(chan full)   (-1: reader did not return within 1 s = blocked)
+//	7 ETook       a=caller b=1 result / 2 timeout / 3 send error
+//	8 EUnregister a=caller b=outcome (1 ok, 2 timed out, 3 send error, 4 other) c=tag of returned frame (or -1)
 package main
 
 import (
@@ -31,6 +34,7 @@ import (
 	"os"
 	"strconv"
 	"sync"
+	"sync/atomic"
 	"time"
 
 	frugal "github.com/Workiva/frugal/lib/go"
@@ -51,6 +55,7 @@ type req struct {
 	Share      []int  `json:"share"`     // NATS: caller reuses the FContext of an earlier caller
 	BadOp      []int  `json:"badop"`     // NATS: 1 = the caller's FContext gets a malformed _opid header
 	Reserve    int    `json:"reserve"`   // NATS: the last k callers are started only once the transport is closed
+	Slow       []int  `json:"slow"`      // adapter: 1 = the caller's FContext is a foreign implementation that is slow to hand out its op id
 }
 
 type resp struct {
@@ -66,6 +71,8 @@ type resp struct {
 	DataKinds    []int  `json:"datakinds,omitempty"`
 	Unexpected   string `json:"unexpected,omitempty"`    // something the harness saw that no schedule allows
 	ServerStatus int    `json:"server_status,omitempty"` // 503 messages the SERVER sent (no responders)
+	SlowParked   int    `json:"slow_parked,omitempty"`   // callers that were held inside their FContext's op id read
+	SlowArrivals int    `json:"slow_arrivals,omitempty"` // frames dispatched while at least one caller was held there
 }
 
 // ---- scripted underlying transport -------------------------------------------------------------
@@ -127,7 +134,7 @@ func (s *stt) Write(p []byte) (int, error) {
 	return len(p), nil
 }
 func (s *stt) Flush(ctx context.Context) error { return nil }
-func (s *stt) RemainingBytes() uint64         { return ^uint64(0) }
+func (s *stt) RemainingBytes() uint64          { return ^uint64(0) }
 
 // ---- yield controller --------------------------------------------------------------------------
 
@@ -187,19 +194,38 @@ func (c *controller) take(d time.Duration, f func(*parked) bool) *parked {
 // ---- one schedule ------------------------------------------------------------------------------
 
 type caller struct {
-	ctx     frugal.FContext
-	opid    uint64
-	state   int // 0 new, 1 parked after register, 2 in select, 3 parked after select, 4 done
-	sendSt  int // 0 not yet written, 1 parked in Write, 2 ok, 3 failed
-	wc      *writeCall
-	took    int
-	done    chan result
-	started time.Time
-	timeout int
-	rel     *parked
+	ctx      frugal.FContext
+	opid     uint64
+	state    int // 0 new, 1 parked after register, 2 in select, 3 parked after select, 4 done, 5 held in its FContext's op id read (before Register)
+	sendSt   int // 0 not yet written, 1 parked in Write, 2 ok, 3 failed
+	wc       *writeCall
+	took     int
+	done     chan result
+	started  time.Time
+	timeout  int
+	rel      *parked
+	slow     *slowCtx
 	chanFull bool
 	released time.Time
 	parkedAt map[string]time.Time
+}
+
+// slowCtx is an FContext implemented outside the library (the interface is public): a wrapper whose
+// first read of the op id header after arm parks at the yield point "ctx.opid" - a context backed by
+// something slow.  Whatever the transport holds while it asks a caller's context for its op id is held
+// for that long; the inbound path must not depend on it (C06: "regardless of other requests being slow").
+type slowCtx struct {
+	frugal.FContext
+	ctl   *controller
+	opid  uint64
+	armed int32
+}
+
+func (s *slowCtx) RequestHeader(name string) (string, bool) {
+	if name == "_opid" && atomic.CompareAndSwapInt32(&s.armed, 1, 0) {
+		s.ctl.yield("ctx.opid", s.opid)
+	}
+	return s.FContext.RequestHeader(name)
 }
 
 type result struct {
@@ -209,7 +235,11 @@ type result struct {
 }
 
 func frameFor(opid uint64, tag int) []byte {
-	// header block {_opid: opid, tag: tag} followed by a 2-byte payload; with 4-byte size prefix
+	// header block {_opid: opid, tag: tag} followed by a 2-byte payload; with 4-byte size prefix.  Three frames
+	// in four also carry a user header that only LOOKS like the op id header to anything but a walk over the
+	// length-prefixed pairs: a name ending in "_opid" whose value is a neighbouring op id (most likely another
+	// request in flight: the callers of a schedule hold consecutive ids), or a value holding the bytes of a
+	// whole "_opid" pair; the real pair comes first, last or in between.  Which: a function of (opid, tag).
 	var body bytes.Buffer
 	put := func(k, v string) {
 		binary.Write(&body, binary.BigEndian, uint32(len(k)))
@@ -217,8 +247,32 @@ func frameFor(opid uint64, tag int) []byte {
 		binary.Write(&body, binary.BigEndian, uint32(len(v)))
 		body.WriteString(v)
 	}
-	put("_opid", strconv.FormatUint(opid, 10))
-	put("tag", strconv.Itoa(tag))
+	other := opid + 1
+	if (opid+uint64(tag))%3 == 0 && opid > 1 {
+		other = opid - 1
+	}
+	os := strconv.FormatUint(other, 10)
+	switch (opid*31 + uint64(tag)) % 4 {
+	case 1:
+		put("parent_opid", os)
+		put("_opid", strconv.FormatUint(opid, 10))
+		put("tag", strconv.Itoa(tag))
+	case 2:
+		var v bytes.Buffer
+		v.WriteString("x_opid")
+		binary.Write(&v, binary.BigEndian, uint32(len(os)))
+		v.WriteString(os)
+		put("tag", strconv.Itoa(tag))
+		put("note", v.String())
+		put("_opid", strconv.FormatUint(opid, 10))
+	case 3:
+		put("_opid", strconv.FormatUint(opid, 10))
+		put("tag", strconv.Itoa(tag))
+		put("trace_opid", os)
+	default:
+		put("_opid", strconv.FormatUint(opid, 10))
+		put("tag", strconv.Itoa(tag))
+	}
 	var out bytes.Buffer
 	total := 5 + body.Len() + 2
 	binary.Write(&out, binary.BigEndian, uint32(total))
@@ -251,7 +305,7 @@ func run(q req) resp {
 	tr := frugal.NewAdapterTransport(under)
 	ctl := &controller{notify: make(chan struct{}, 1), block: map[string]bool{
 		"request.registered": true, "request.got": true, "request.senderr": true, "request.timeout": true,
-		"dispatch.send": true, "dispatch.dropped": true}}
+		"dispatch.send": true, "dispatch.dropped": true, "ctx.opid": true}}
 	frugal.VerifSetYield(ctl.yield)
 	defer frugal.VerifSetYield(nil)
 	if err := tr.Open(); err != nil {
@@ -270,6 +324,10 @@ func run(q req) resp {
 		c.timeout = to
 		c.ctx.SetTimeout(time.Duration(to) * time.Millisecond)
 		c.opid, _ = frugal.VerifGetOpID(c.ctx)
+		if i < len(q.Slow) && q.Slow[i] == 1 {
+			c.slow = &slowCtx{FContext: c.ctx, ctl: ctl, opid: c.opid}
+			c.ctx = c.slow
+		}
 		cs[i] = c
 		r.Opids = append(r.Opids, strconv.FormatUint(c.opid, 10))
 	}
@@ -414,6 +472,8 @@ func run(q req) resp {
 				acts = append(acts, action{2, i}, action{2, i})
 			case 3:
 				acts = append(acts, action{8, i})
+			case 5:
+				acts = append(acts, action{9, i})
 			}
 			if c.sendSt == 1 {
 				acts = append(acts, action{3, i})
@@ -453,6 +513,9 @@ func run(q req) resp {
 			c := cs[a.i]
 			c.state = 1
 			c.started = time.Now()
+			if c.slow != nil {
+				atomic.StoreInt32(&c.slow.armed, 1)
+			}
 			go func(i int, c *caller) {
 				payload := make([]byte, 8)
 				binary.BigEndian.PutUint32(payload, 4)
@@ -466,12 +529,30 @@ func run(q req) resp {
 				}
 				c.done <- result{tag: tag, err: err, dur: d}
 			}(a.i, c)
-			p := ctl.take(patient(2*time.Second), func(p *parked) bool { return p.point == "request.registered" && p.opid == c.opid })
+			p := ctl.take(patient(2*time.Second), func(p *parked) bool {
+				return (p.point == "request.registered" || p.point == "ctx.opid") && p.opid == c.opid
+			})
 			if p == nil {
 				r.Hang = "caller did not reach the point after Register"
 				break
 			}
 			c.rel = p
+			if p.point == "ctx.opid" {
+				// held inside its own context, before Register: nothing has happened as far as the registry goes
+				c.state = 5
+				r.SlowParked++
+				break
+			}
+			ev(1, a.i, 0, 0)
+		case 9:
+			c := cs[a.i]
+			close(c.rel.rel)
+			p := ctl.take(patient(2*time.Second), func(p *parked) bool { return p.point == "request.registered" && p.opid == c.opid })
+			if p == nil {
+				r.Hang = "caller did not reach the point after Register"
+				break
+			}
+			c.rel, c.state = p, 1
 			ev(1, a.i, 0, 0)
 		case 2:
 			c := cs[a.i]
@@ -496,6 +577,12 @@ func run(q req) resp {
 			ev(4, a.i, 0, 0)
 			settle(a.i)
 		case 5:
+			for _, c := range cs {
+				if c.state == 5 {
+					r.SlowArrivals++
+					break
+				}
+			}
 			if a.i >= 0 {
 				feed(cs[a.i].opid, nextTag)
 			} else {
@@ -551,9 +638,16 @@ func run(q req) resp {
 		deliver()
 	}
 	releaseDrop()
-	r.RegLen = frugal.VerifTransportRegistryLen(tr)
 	if r.Hang == "" {
+		r.RegLen = frugal.VerifTransportRegistryLen(tr)
 		r.Fresh = freshRequest(tr, under, ctl)
+	}
+	// callers still held inside their FContext go on: whatever was held for them is let go of, so that a hung
+	// schedule cannot wedge the transport's Close below (and with it this process)
+	for _, c := range cs {
+		if c.state == 5 {
+			close(c.rel.rel)
+		}
 	}
 	ctl.mu.Lock()
 	for _, p := range ctl.parked {
